@@ -188,3 +188,22 @@ func VerifRegisterRemote(p *VipnodePool, id store.NodeID, svc jsonrpc2.Service) 
 	p.remoteNodeLookup[svc] = id
 	p.mu.Unlock()
 }
+
+// VerifSignOldUpdate signs the deprecated vipnode_update form (peers, block number only).
+func VerifSignOldUpdate(nodeID string, nonce int64, peers []string, blockNumber uint64) string {
+	return sigs.SignFor(nodeID, "vipnode_update", nonce, oldUpdateRequest{peers, blockNumber})
+}
+
+// VerifIsVerifyFailed reports whether err is the pool's authentication error.
+func VerifIsVerifyFailed(err error) bool {
+	_, ok := err.(VerifyFailedError)
+	return ok
+}
+
+// VerifSkipNonces moves the fresh-nonce counter ahead by n.
+func VerifSkipNonces(n int64) {
+	if verifNonce == 0 {
+		verifNonce = verifapi.Now().UnixNano()
+	}
+	verifNonce += n
+}
